@@ -71,6 +71,21 @@ pub fn capback() -> SweepProfile {
     }
 }
 
+/// Anchors under optional / repeated groups and alternations (start-anchored detection), with and
+/// without the m flag.
+pub fn anchor() -> SweepProfile {
+    let unary = vec![Unary::Group, q(0, Some(1), true), q(0, None, true), q(1, None, true), Unary::Look(false, false), Unary::Mods(fl("m"), fl("")), Unary::Mods(fl(""), fl("m"))];
+    SweepProfile {
+        profile: Profile { name: "P-anchor", leaves: vec![Node::AssertStart, ch('a'), ch('b'), Node::Empty, Node::AssertEnd], unary, cat: true, alt: true, max_quant_nest: 1 },
+        flags: vec![fl(""), fl("m")],
+        alphabet: vec!['a' as u32, 'b' as u32, '\n' as u32],
+        size_quick: 6,
+        size_thorough: 7,
+        hay_quick: 3,
+        hay_thorough: 4,
+    }
+}
+
 pub fn look() -> SweepProfile {
     let unary = vec![
         Unary::Group,
@@ -219,8 +234,8 @@ pub fn icase() -> SweepProfile {
         profile: Profile { name: "P-icase", leaves, unary, cat: true, alt: true, max_quant_nest: 1 },
         flags: vec![fl("i"), fl("iu"), fl("iv")],
         alphabet: vec!['k' as u32, 'K' as u32, 0x212A, 's' as u32, 0x17F, 'ς' as u32, 'Σ' as u32, 'ǅ' as u32, ' ' as u32],
-        size_quick: 3,
-        size_thorough: 3,
+        size_quick: 4,
+        size_thorough: 4,
         hay_quick: 2,
         hay_thorough: 3,
     }
@@ -401,6 +416,7 @@ pub fn by_name(name: &str) -> Option<SweepProfile> {
     Some(match name {
         "core" => core(),
         "capback" => capback(),
+        "anchor" => anchor(),
         "look" => look(),
         "nest" => nest(),
         "nestlook" => nestlook(),
@@ -416,4 +432,4 @@ pub fn by_name(name: &str) -> Option<SweepProfile> {
     })
 }
 
-pub const ALL: [&str; 13] = ["core", "capback", "vset", "dupref", "look", "nest", "nestlook", "utf8", "icase", "lit", "onechar", "named", "mods"];
+pub const ALL: [&str; 14] = ["core", "capback", "anchor", "vset", "dupref", "look", "nest", "nestlook", "utf8", "icase", "lit", "onechar", "named", "mods"];
